@@ -8,15 +8,38 @@ the body are harness errors.
 from hypothesis import HealthCheck, Phase, given, seed, settings
 
 
-def run(strategy, body, max_examples, seed_value, suppress_slow=True):
+def run(strategy, body, max_examples, seed_value, suppress_slow=True, stats=None):
+    """Run ``body`` on ``max_examples`` generated values.  If Hypothesis aborts the campaign because
+    the code under test behaved non-deterministically (its Flaky* errors), the campaign is restarted
+    with a derived seed for the remaining budget: failures recorded so far by the body are kept, the
+    restart is counted in ``stats['hypothesis_flaky_restarts']``."""
+    from hypothesis import errors
     suppress = [HealthCheck.too_slow, HealthCheck.data_too_large, HealthCheck.large_base_example] \
         if suppress_slow else []
+    done = [0]
 
-    @seed(seed_value)
-    @settings(max_examples=max_examples, deadline=None, database=None, phases=[Phase.generate],
-              suppress_health_check=suppress, report_multiple_bugs=False, derandomize=False)
-    @given(strategy)
-    def _t(x):
+    def counted(x):
+        done[0] += 1
         body(x)
 
-    _t()
+    restarts = 0
+    while done[0] < max_examples and restarts < 20:
+        remaining = max_examples - done[0]
+
+        @seed(seed_value + 7919 * restarts)
+        @settings(max_examples=remaining, deadline=None, database=None, phases=[Phase.generate],
+                  suppress_health_check=suppress, report_multiple_bugs=False, derandomize=False)
+        @given(strategy)
+        def _t(x):
+            counted(x)
+
+        before = done[0]
+        try:
+            _t()
+            break
+        except (errors.Flaky, errors.FlakyStrategyDefinition, getattr(errors, 'FlakyFailure', errors.Flaky)):
+            restarts += 1
+            if stats is not None:
+                stats['hypothesis_flaky_restarts'] += 1
+            if done[0] == before:
+                break
